@@ -4,6 +4,7 @@ import (
 	"fmt"
 	"runtime"
 	"sync"
+	"unsafe"
 )
 
 // Switch is one scheduling decision: at global step Step (the Step-th yield point
@@ -25,6 +26,16 @@ type SchedCfg struct {
 	Explicit []Switch // replay: follow exactly these preemptions (Kind=="preempt"), nothing else
 	Replay   bool
 	MaxSteps int64 // watchdog: abort the run beyond this many yield points (0: none)
+	// HideSync makes every task ignore synchronisation events for the race detector, except
+	// those of the mutexes of the code under test, which the lock shims annotate explicitly.
+	// Library-internal synchronisation (sync.Pool in fmt, regexp, protobuf ...) then creates
+	// no accidental happens-before edges between tasks, so the detector's verdict depends
+	// only on the (replayable) interleaving of memory accesses.
+	HideSync bool
+	// LockBias > 0: after a task acquires a mutex of the code under test it is preempted
+	// right there with probability 1/LockBias (search mode), so that other tasks meet the
+	// lock while it is held.
+	LockBias int
 }
 
 // SchedResult is what a run reports.
@@ -55,6 +66,7 @@ type sched struct {
 	deadlock   bool
 	overrun    bool
 	allDone    chan struct{}
+	release    chan struct{}
 }
 
 var theSched *sched
@@ -218,32 +230,135 @@ func blockedSwitch(site string) {
 
 type locker interface {
 	Lock()
+	Unlock()
 	TryLock() bool
 }
 type rlocker interface {
 	RLock()
+	RUnlock()
 	TryRLock() bool
 }
 
 var _ locker = (*sync.Mutex)(nil)
 var _ rlocker = (*sync.RWMutex)(nil)
 
-// Lock replaces mu.Lock(): the real mutex is still acquired (so its own race
-// annotations stay in force) but a task that cannot get it hands control to another
-// task instead of parking inside the runtime where the simulator cannot see it.
+// syncAddrs gives every mutex of the code under test two private addresses on which its
+// happens-before edges are modelled for the race detector (as sync.RWMutex does itself
+// with readerSem / writerSem). The table is only touched by norace code.
+type muAddrs struct {
+	mu   unsafe.Pointer
+	r, w *byte
+}
+
+var muTable [64]muAddrs
+var muCount int
+
+//go:norace
+func addrsOf(mu unsafe.Pointer) *muAddrs {
+	for i := 0; i < muCount; i++ {
+		if muTable[i].mu == mu {
+			return &muTable[i]
+		}
+	}
+	if muCount == len(muTable) {
+		return &muTable[0]
+	}
+	muTable[muCount] = muAddrs{mu: mu, r: new(byte), w: new(byte)}
+	muCount++
+	return &muTable[muCount-1]
+}
+
+// hidden reports whether the calling task runs with synchronisation hidden.
+//
+//go:norace
+func hidden() bool {
+	s := theSched
+	return s != nil && s.cfg.HideSync && s.cur != nil
+}
+
+// heldYield is the yield point right after a lock has been acquired.
+//
+//go:norace
+func heldYield(site string) {
+	s := theSched
+	if s == nil {
+		return
+	}
+	if !s.cfg.Replay && s.cfg.LockBias > 0 && s.r.Intn(s.cfg.LockBias) == 0 {
+		s.nextSwitch = s.steps + 1
+	}
+	Yield(site)
+}
+
+// Lock replaces mu.Lock(): the real mutex is still acquired, but a task that cannot get
+// it hands control to another task instead of parking inside the runtime where the
+// simulator cannot see it.
+//
+//go:norace
 func Lock(site string, mu locker) {
 	Yield(site)
 	for !mu.TryLock() {
 		blockedSwitch(site)
 	}
+	if hidden() {
+		a := addrsOf(ptrOf(mu))
+		raceEnable()
+		raceAcquire(unsafe.Pointer(a.r))
+		raceAcquire(unsafe.Pointer(a.w))
+		raceDisable()
+	}
+	heldYield(site)
+}
+
+// Unlock replaces mu.Unlock().
+//
+//go:norace
+func Unlock(site string, mu locker) {
+	if hidden() {
+		a := addrsOf(ptrOf(mu))
+		raceEnable()
+		raceRelease(unsafe.Pointer(a.r))
+		raceReleaseMerge(unsafe.Pointer(a.w))
+		raceDisable()
+	}
+	mu.Unlock()
+	Yield(site)
 }
 
 // RLock replaces mu.RLock().
+//
+//go:norace
 func RLock(site string, mu rlocker) {
 	Yield(site)
 	for !mu.TryRLock() {
 		blockedSwitch(site)
 	}
+	if hidden() {
+		a := addrsOf(ptrOf(mu))
+		raceEnable()
+		raceAcquire(unsafe.Pointer(a.r))
+		raceDisable()
+	}
+	heldYield(site)
+}
+
+// RUnlock replaces mu.RUnlock().
+//
+//go:norace
+func RUnlock(site string, mu rlocker) {
+	if hidden() {
+		a := addrsOf(ptrOf(mu))
+		raceEnable()
+		raceReleaseMerge(unsafe.Pointer(a.w))
+		raceDisable()
+	}
+	mu.RUnlock()
+	Yield(site)
+}
+
+//go:norace
+func ptrOf(x interface{}) unsafe.Pointer {
+	return (*[2]unsafe.Pointer)(unsafe.Pointer(&x))[1]
 }
 
 // TaskResult is filled by RunTasks for each task.
@@ -259,7 +374,7 @@ func RunTasks(cfg SchedCfg, ctxs []*Ctx, fns []func()) (SchedResult, []TaskResul
 	if len(ctxs) != len(fns) || len(fns) == 0 || len(fns) > 64 {
 		panic("simrt: bad RunTasks arguments")
 	}
-	s := &sched{cfg: cfg, tasks: ctxs, r: NewRng(cfg.Seed), r2: NewRng(Mix(cfg.Seed, 0xf1)), trace: make([]Switch, 0, 1<<16), allDone: make(chan struct{})}
+	s := &sched{cfg: cfg, tasks: ctxs, r: NewRng(cfg.Seed), r2: NewRng(Mix(cfg.Seed, 0xf1)), trace: make([]Switch, 0, 1<<16), allDone: make(chan struct{}), release: make(chan struct{})}
 	res := make([]TaskResult, len(fns))
 	var wg sync.WaitGroup
 	for i, c := range ctxs {
@@ -317,7 +432,9 @@ func finishTask(s *sched, c *Ctx) {
 	c.finished = true
 	to := s.pick(&s.r2, c, false)
 	if to == nil {
+		// the last task to finish releases the parked ones, then the collector
 		raceDisable()
+		close(s.release)
 		s.allDone <- struct{}{}
 		raceEnable()
 		return
@@ -327,12 +444,24 @@ func finishTask(s *sched, c *Ctx) {
 	cur = to
 	raceDisable()
 	to.resume <- struct{}{}
+	// A finished task stays parked until every task has finished: the race detector
+	// recycles the bookkeeping of goroutines that exit, which makes its verdict about an
+	// access of an exited goroutine depend on unrelated process history.
+	<-s.release
 	raceEnable()
 }
 
 func taskMain(s *sched, c *Ctx, f func(), r *TaskResult, wg *sync.WaitGroup) {
 	defer wg.Done()
 	waitTurn(c)
+	if s.cfg.HideSync {
+		// from here to the end of the task body, synchronisation performed by this goroutine
+		// is invisible to the race detector (the lock shims re-enable it for their own
+		// annotations); it is switched back on before wg.Done so that the collector is
+		// ordered after everything the task did
+		raceDisable()
+		defer raceEnable()
+	}
 	func() {
 		defer func() {
 			if p := recover(); p != nil {
